@@ -81,6 +81,24 @@ def as_array(v: Val) -> Optional[Num]:
     return None
 
 
+def check_function_rfa(ctx):
+    """C04.5: FunctionRFA returns function(x_i) over its grid, as computed (no post-processing of the sampled values)"""
+    st = strategy(ctx.prog, 'CubicSplineRFA')
+    res = st.result
+    if isinstance(res, Tup) and len(res.items) == 2:
+        xs, ys = as_array(res.items[0]), as_array(res.items[1])
+        ok = xs is not None and ys is not None
+        if ok:
+            apps = [t for t in walk_vals(ys) if isinstance(t, Term) and t.head == 'apply' and len(t.args) == 2]
+            ok = any(isinstance(t.args[1], Num) and t.args[1].r == xs.r for t in apps) and ys.length == xs.length
+        ctx.check(ok, 'C04.5', 'FunctionRFA: y[i] = function(x[i]) over the returned grid, same extent', show(res.items[1], 300),
+                  st.rfa.loc(), st.rfa.qualname, 'function-y')
+        from .common import split_branches, post_processed
+        altered = [(pth, post_processed(v_)) for pth, v_ in split_branches(res.items[1]) if post_processed(v_)]
+        ctx.check(not altered, 'C04.5', 'FunctionRFA returns the sampled values as computed (no clamping / rounding of the result, on any path)',
+                  f"{[(h_, [str(q)[:80] for q in pth]) for pth, h_ in altered[:2]]}", st.rfa.loc(), st.rfa.qualname, 'function-y-raw')
+
+
 def run(ctx):
     ctx.rule('C04.1', 'for every concrete subclass of AbstractRFA, rfa() returns a 2-tuple whose elements are one-dimensional ndarrays (container-kind inference)')
     ctx.rule('C04.2', 'both elements have symbolic extent (m-1)*n+1 (helper length contracts of C17 applied); the abscissae are oversample_linspace(self.x, n), '
@@ -143,21 +161,12 @@ def run(ctx):
                   f"raises in constructor: {[(e.data.get('exc'), [str(g) for g in e.guard]) for e in st.init_raises]}", st.init.loc(), st.init.qualname, 'n<2')
         ctx.sample({'rule': 'C04.1/2', 'strategy': name, 'kinds': [kind_of(v) for v in res.items],
                     'extents': [sym.show(resolve_len(as_array(v).length, m)) if as_array(v) is not None else None for v in res.items]})
-    # C04.5
-    st = strategy(ctx.prog, 'CubicSplineRFA')
-    res = st.result
-    if isinstance(res, Tup) and len(res.items) == 2:
-        xs, ys = as_array(res.items[0]), as_array(res.items[1])
-        ok = xs is not None and ys is not None
-        if ok:
-            apps = [t for t in walk_vals(ys) if isinstance(t, Term) and t.head == 'apply' and len(t.args) == 2]
-            ok = any(isinstance(t.args[1], Num) and t.args[1].r == xs.r for t in apps) and ys.length == xs.length
-        ctx.check(ok, 'C04.5', 'FunctionRFA: y[i] = function(x[i]) over the returned grid, same extent', show(res.items[1], 300),
-                  st.rfa.loc(), st.rfa.qualname, 'function-y')
+    check_function_rfa(ctx)
     # the helper contracts the derivation above relies on (C17.1 / C17.2)
-    from . import c17
+    from . import c17, c05
     c17.check_oversample(ctx)
     c17.check_extend(ctx)
+    c05.check_other_strategies(ctx)      # every strategy, the cubic spline included, is defined for m >= 2 points: it is the documented library interpolant
     ctx.trust('helper length contracts: len(oversample_*(a, k)) = (len(a)-1)*k+1; extend_*(a, n, both) adds n per side (decided under C17)',
               'numpy.linspace(a, b, k)[0] == a exactly (bit-for-bit alignment of every n-th abscissa is this library guarantee)')
     ctx.notes.append('NOT DECIDED: finiteness of values; strict monotonicity of the abscissae (numeric consequences of the precondition).')
